@@ -699,7 +699,11 @@ package p9
 //@   maypanic
 
 //@ func (*pathNode).removeWithName
+//@   assumed_ensures[C05,C15] @pins-are-released sameOwed() && sameOwn()
 //@   requires[C15,C16] held(p.childMu) == 0
+//@   requires[C07,C08,C16] Inodes()
+//@   ensures[C07,C08,C16] Inodes()
+//@   loop 0 invariant[C07,C08,C16] Inodes()
 //@   requires[C06,C16] @no-child-lock-held forall(pn, *pathNode, held(pn.childMu) == 0)
 //@   requires[C09] InamesSafe()
 //@   ensures[C09] InamesSafe()
@@ -731,20 +735,70 @@ package p9
 //@   requires[C07,C08] Irefs()
 //@   ensures[C07,C08] Irefs()
 //@   modifies type:pathNode.deleted, maps(map[string]*pathNode), maps(map[*fidRef]string), maps(map[string]map[*fidRef]struct{}), maps(map[*fidRef]struct{})
-//@ func (*fidRef).renameChildTo
+// renameChildTo: proved against the body for the discipline of what it calls
+// (which node and which name every tree update goes to, what the backend is
+// told, lock preconditions, reference accounting of the re-parenting). That it
+// preserves the three tree invariants is still assumed (assumed_ensures): the
+// loop in removeWithName and the recursion in markChildDeleted /
+// notifyNameChange are not expressible (map iteration, unbounded subtrees).
+//@ func notifyNameChange
 //@   abstract
+//@   modifies $n.File.Renamed, $ncalls
+//@   ensures[C15,C16] samelocks()
+//@   maypanic
+
+//@ func (*fidRef).renameChildTo
+//@   ensures[C05,C15] @references-balanced owedNonNeg() && sameOwed() && sameOwn()
+//@   assumed_panic_ensures[C05,C15] owedNonNeg() && sameOwed() && sameOwn()
 //@   requires[C07,C08] @global-lock globalLocked(f)
+//@   requires[C07,C08] @one-server target != nil && target.server == f.server
+//@   requires[C06,C16] @no-child-lock-held forall(pn, *pathNode, held(pn.childMu) == 0)
+//@   requires[C05,C15] owedNonNeg()
 //@   requires[C09] safe(newName)
 //@   requires[C09] InamesSafe()
+//@   assumed_ensures[C09] InamesSafe()
+//@   assumed_panic_ensures[C09] InamesSafe()
+//@   requires[C07,C08,C16] Inodes()
+//@   assumed_ensures[C07,C08,C16] Inodes()
+//@   assumed_panic_ensures[C07,C08,C16] Inodes()
+//@   requires[C07,C08] Irefs()
+//@   assumed_ensures[C07,C08] Irefs()
+//@   assumed_panic_ensures[C07,C08] Irefs()
+//@   modifies type:pathNode.deleted, type:fidRef.parent, type:fidRef.refs, maps(map[string]*pathNode), maps(map[*fidRef]string), maps(map[string]map[*fidRef]struct{}), maps(map[*fidRef]struct{}), $n.File.Renamed, $n.File.Close, $closeerr, $ncalls, $owed, $own
+//@   at (*fidRef).markChildDeleted requires[C08] @old-entry-at-the-new-name-is-fenced recv == target && arg0 == newName
+//@   at (*pathNode).removeWithName requires[C08] @references-leave-the-old-name recv == f.pathNode && arg0 == oldName
+//@   at closure:(*fidRef).renameChildTo$1 requires[C07,C08,C09] @callback-context *target != nil && globalLocked(*f) && (*target).server == (*f).server && safe(*newName)
+//@   at (*pathNode).addPathNodeFor presume arg1 != recv
+//@   at (*pathNode).addPathNodeFor requires[C07,C08] @subtree-moves-under-the-target-at-the-new-name recv == target.pathNode && arg0 == newName && arg1 == origPathNode
+//@   at notifyNameChange requires[C08] @backends-of-the-moved-subtree-are-told arg0 == origPathNode
+//@   ensures[C15,C16] samelocks()
+//@   panic_ensures[C15,C16] samelocks()
+//@   maypanic
+
+// the per-reference callback of the rename (runs under f.pathNode.childMu,
+// with a reference on ref held by removeWithName)
+//@ func (*fidRef).renameChildTo$1
+//@   requires[C05,C08,C15] @registered-references-have-a-parent ref != nil && ref.parent != nil && *target != nil
+//@   requires[C07,C08] globalLocked(*f) && (*target).server == (*f).server
+//@   requires[C06,C15,C16] @runs-under-the-source-childMu held((*f).pathNode.childMu) == -1 && forall(pn, *pathNode, pn != (*f).pathNode ==> held(pn.childMu) == 0)
+//@   requires[C05,C15] owedNonNeg() && owed(ref) >= 1
+//@   requires[C09] InamesSafe() && safe(*newName)
 //@   ensures[C09] InamesSafe()
 //@   panic_ensures[C09] InamesSafe()
-//@   requires[C07,C08,C16] Inodes()
-//@   ensures[C07,C08,C16] Inodes()
-//@   panic_ensures[C07,C08,C16] Inodes()
-//@   requires[C07,C08] Irefs()
-//@   ensures[C07,C08] Irefs()
-//@   panic_ensures[C07,C08] Irefs()
-//@   modifies type:pathNode.deleted, type:fidRef.parent, type:fidRef.refs, maps(map[string]*pathNode), maps(map[*fidRef]string), maps(map[string]map[*fidRef]struct{}), maps(map[*fidRef]struct{}), $n.File.Renamed, $n.File.Close, $closeerr, $ncalls
+//@   modifies type:fidRef.parent, type:fidRef.refs, maps(map[*fidRef]string), maps(map[string]map[*fidRef]struct{}), maps(map[*fidRef]struct{}), $n.File.Renamed, $n.File.Close, $closeerr, $ncalls, $owed, $own
+//@   at (*fidRef).DecRef ghost owed recv += 1
+//@   at (*fidRef).DecRef presume recv.parent != nil ==> recv.parent.pathNode != (*f).pathNode
+//@   at (*fidRef).DecRef requires[C05,C08] @drops-the-link-to-the-old-parent recv == old(ref.parent)
+//@   at (*pathNode).addChild presume !has(recv.childRefNames, ref)
+//@   at (*pathNode).addChildLocked presume !has(recv.childRefNames, ref)
+//@   at (*pathNode).addChild requires[C08,C09] @registered-in-the-target-under-the-new-name recv == (*target).pathNode && arg0 == ref && arg1 == *newName
+//@   at (*pathNode).addChildLocked requires[C08,C09] @registered-in-the-target-under-the-new-name recv == (*target).pathNode && arg0 == ref && arg1 == *newName
+//@   at File.Renamed presume ref.server == (*f).server && own(recv) != 3
+//@   at File.Renamed requires[C03,C08] @backend-is-told-the-new-place recv == ref.file && arg0 == (*target).file && arg1 == *newName
+//@   ensures[C08] @reparented ref.parent == *target
+//@   ensures[C05,C15] @callback-leaves-held-references-alone owedNonNeg() && sameOwed()
+//@   ensures[C15,C16] samelocks()
+//@   panic_ensures[C15,C16] samelocks()
 //@   maypanic
 
 //@ guard fidRef.opened[C07,C16] read readLocked(r) write writeLocked(r)
